@@ -38,29 +38,29 @@ def _(): return word_ind(lambda w: ForAll([u_], Implies(T.isprefix(u_, w), T.wle
 def _(): return word_ind(lambda w: ForAll([u_], Implies(And(T.isprefix(u_, w), T.wlen(u_) == T.wlen(w)), u_ == w)))
 @proof('word', 'isprefix-nil')
 def _(): return word_ind(lambda w: T.isprefix(Word.nil, w))
-@proof('word', 'app-len')
+@proof('wordx', 'app-len')
 def _(): return word_ind(lambda v: ForAll([u_], T.wlen(T.app(u_, v)) == T.wlen(u_) + T.wlen(v)))
-@proof('word', 'app-nil-left')
+@proof('wordx', 'app-nil-left')
 def _(): return word_ind(lambda u: T.app(Word.nil, u) == u)
-@proof('word', 'take-len')
+@proof('wordx', 'take-len')
 def _(): return word_ind(lambda w: ForAll([k_], Implies(And(0 <= k_, k_ <= T.wlen(w)), T.wlen(T.take(k_, w)) == k_)))
-@proof('word', 'drop-len')
+@proof('wordx', 'drop-len')
 def _(): return word_ind(lambda w: ForAll([k_], Implies(And(0 <= k_, k_ <= T.wlen(w)), T.wlen(T.drop(k_, w)) == T.wlen(w) - k_)))
-@proof('word', 'take-all')
+@proof('wordx', 'take-all')
 def _(): return word_ind(lambda w: ForAll([k_], Implies(k_ >= T.wlen(w), T.take(k_, w) == w)))
-@proof('word', 'drop-zero')
+@proof('wordx', 'drop-zero')
 def _(): return word_ind(lambda w: ForAll([k_], Implies(k_ <= 0, T.drop(k_, w) == w)))
-@proof('word', 'take-drop-app')
+@proof('wordx', 'take-drop-app')
 def _(): return word_ind(lambda w: ForAll([k_], T.app(T.take(k_, w), T.drop(k_, w)) == w))
-@proof('word', 'take-over')
+@proof('wordx', 'take-over')
 def _(): return word_ind(lambda w: ForAll([k_, S_], Implies(T.over(S_, w), T.over(S_, T.take(k_, w)))))
-@proof('word', 'drop-over')
+@proof('wordx', 'drop-over')
 def _(): return word_ind(lambda w: ForAll([k_, S_], Implies(T.over(S_, w), T.over(S_, T.drop(k_, w)))))
 
 
-@proof('word', 'take-app')
+@proof('wordx', 'take-app')
 def _(): return word_ind(lambda v: ForAll([u_], T.take(T.wlen(u_), T.app(u_, v)) == u_))
-@proof('word', 'drop-app')
+@proof('wordx', 'drop-app')
 def _(): return word_ind(lambda v: ForAll([u_], T.drop(T.wlen(u_), T.app(u_, v)) == v))
 
 
@@ -69,6 +69,24 @@ def _():
     D = SV(REC('DFA'), T._D); q = Const('q_', Atom)
     hyp = And(T.s_dfa_wf(None, D).z, Select(rec_get(D, 'Q').z, q))
     return [(t, [hyp] + h, g) for (t, h, g) in word_ind(lambda w: Implies(T.over(rec_get(D, 'Sigma').z, w), Select(rec_get(D, 'Q').z, T.dhat(T.dfa_delta_val(D), q, w))))]
+
+
+@proof('dfa', 'restrict-sim')
+def _():
+    d1, d2 = Const('d1_', T.DeltaD), Const('d2_', T.DeltaD); Sg = Const('Sg_', T.SetA); q = Const('q_', Atom); x, a = Consts('x_ a_', Atom)
+    hyp = ForAll([x, a], Implies(And(Select(T.Reach(d1, Sg, q), x), Select(Sg, a)), Select(d2, T.mkKey2(x, a)) == Select(d1, T.mkKey2(x, a))))
+    return [(t, [hyp] + h, g) for (t, h, g) in word_ind(lambda w: Implies(T.over(Sg, w), And(T.dhat(d2, q, w) == T.dhat(d1, q, w), Select(T.Reach(d1, Sg, q), T.dhat(d1, q, w)))))]
+
+
+@proof('dfa', 'product-sim')
+def _():
+    D1, D2, R = [SV(REC('DFA'), Const(n, sort_of(REC('DFA')))) for n in ('D1_', 'D2_', 'DR_')]
+    x, y = Consts('x_ y_', Atom)
+    hyp = And(T.prod_struct(D1, D2, R), Select(rec_get(D1, 'Q').z, x), Select(rec_get(D2, 'Q').z, y))
+    Sg = rec_get(D1, 'Sigma').z
+    P = lambda w: Implies(T.over(Sg, w), T.dhat(T.dfa_delta_val(R), T.pair_name(x, y), w) == T.pair_name(T.dhat(T.dfa_delta_val(D1), x, w), T.dhat(T.dfa_delta_val(D2), y, w)))
+    closed = [ForAll([w_], Implies(T.over(Sg, w_), And(Select(rec_get(D1, 'Q').z, T.dhat(T.dfa_delta_val(D1), x, w_)), Select(rec_get(D2, 'Q').z, T.dhat(T.dfa_delta_val(D2), y, w_)))))]
+    return [('closed', [hyp], closed[0])] + [(t, [hyp] + closed + h, g) for (t, h, g) in word_ind(P)]
 
 
 @proof('nfa', 'Eclo-empty')
@@ -125,7 +143,7 @@ def prove_lemmas(theories, timeout=10):
     """-> list of (name, status, log); a lemma may use the def/lfp/assumed axioms of the selected theories and earlier lemmas"""
     from .smt import discharge
     obls = []
-    order = ['word', 'dfa', 'nfa', 'regexp', 'tm', 'pda', 'cfg', 'naming']
+    order = ['word', 'wordx', 'dfa', 'nfa', 'regexp', 'tm', 'pda', 'cfg', 'naming']
     ths = [t for t in order if t in theories] + [t for t in theories if t not in order]
     avail = []
     for th in ths:
@@ -143,7 +161,9 @@ def prove_lemmas(theories, timeout=10):
             avail.append(f)
     os_ = [o for (_n, o, _x) in jobs if o is not None]
     from . import sets as S
-    discharge(os_, [f for _n, f in S.GEN_AXIOMS], timeout=timeout)
+    from .verify import relevant_generated
+    for o in os_: o.hyps = relevant_generated(o, []) + o.hyps
+    discharge(os_, [], timeout=timeout)
     res = {}
     for (n, o, _x) in jobs:
         if o is None: res[n] = ('unproved', 'no proof script'); continue
